@@ -3816,6 +3816,7 @@ type scopeEntry struct {
 	hadConst bool                // was there a previous l.localConsts[name]?
 	hadVar   bool                // was there a previous l.localIsVar[name]?
 	hadPtr   bool                // was there a previous l.localIsPtr[name]?
+	prevAST  parser.Expr         // previous l.localAbstractASTs[name] (nil if none)
 }
 
 // scopeFrame represents one lexical scope level.
@@ -3842,21 +3843,41 @@ func (l *Lowerer) popScope() {
 		} else {
 			delete(l.locals, e.name)
 		}
-		if !e.hadConst {
-			delete(l.localConsts, e.name)
+		restoreFlag(l.localConsts, e.name, e.hadConst)
+		restoreFlag(l.localIsVar, e.name, e.hadVar)
+		restoreFlag(l.localIsPtr, e.name, e.hadPtr)
+		if e.prevAST != nil {
+			l.localAbstractASTs[e.name] = e.prevAST
+		} else {
+			delete(l.localAbstractASTs, e.name)
 		}
-		if !e.hadVar {
-			delete(l.localIsVar, e.name)
-		}
-		if !e.hadPtr {
-			delete(l.localIsPtr, e.name)
-		}
+	}
+}
+
+// restoreFlag puts a per-name flag back to the state it had before shadowing.
+func restoreFlag(m map[string]bool, name string, had bool) {
+	if had {
+		m[name] = true
+	} else {
+		delete(m, name)
 	}
 }
 
 // scopeSet records that a name is being bound in the current scope, saving
 // any previous binding for restoration by popScope.
 func (l *Lowerer) scopeSet(name string) {
+	l.scopeSave(name)
+	// The new binding replaces the old one completely: drop what the per-name
+	// side tables say about the shadowed binding (the caller sets the entries
+	// that apply to the new one).
+	delete(l.localConsts, name)
+	delete(l.localIsVar, name)
+	delete(l.localIsPtr, name)
+	delete(l.localAbstractASTs, name)
+}
+
+// scopeSave saves the current binding of name in the innermost scope frame.
+func (l *Lowerer) scopeSave(name string) {
 	if len(l.scopeStack) == 0 {
 		return
 	}
@@ -3881,6 +3902,7 @@ func (l *Lowerer) scopeSet(name string) {
 		hadConst: hadConst,
 		hadVar:   hadVar,
 		hadPtr:   hadPtr,
+		prevAST:  l.localAbstractASTs[name],
 	})
 }
 
